@@ -64,16 +64,23 @@ def cases(seed, tier, shard, nshards):
         # framed references at the very end of the last unit
         labels = list(d['labels'])
         framed = []
+        fwd_refs = ''
         if labels:
+            # forward references in the first paragraph of the document, the same label more than once
+            fwd = []
+            if r.random() < 0.6:
+                for l in [r.choice(labels) for _ in range(r.choice([1, 2]))]:
+                    fwd.extend([l] * r.choice([1, 2, 2, 3]))
             picks = [r.choice(labels) for _ in range(min(6, len(labels) + 1))]
-            src_refs = ' '.join('RfA%dz \\ref{%s} RfB%dz' % (k, l, k) for k, l in enumerate(picks))
-            framed = picks
+            fwd_refs = ' '.join('RfA%dz \\ref{%s} RfB%dz' % (k, l, k) for k, l in enumerate(fwd))
+            src_refs = ' '.join('RfA%dz \\ref{%s} RfB%dz' % (k + len(fwd), l, k + len(fwd)) for k, l in enumerate(picks))
+            framed = fwd + picks
         else:
             src_refs = ''
         extra_body = ''
         use_index = r.random() < 0.35
         use_bib = r.random() < 0.3
-        prefix = ''
+        prefix = fwd_refs + '\n\n' if fwd_refs else ''
         if use_index:
             prefix += ' '.join('Ix%dz\\index{%s}' % (k, r.choice(WORDS)) for k in range(r.randint(1, 5))) + '\n\n'
         if use_bib:
